@@ -101,6 +101,7 @@ Proof.
     repeat first
     [ progress cbn [bind negb andb orb Date_f_year Date_f_ordinal Date_f_month Date_f_day inner_Date_f_ordinal]
     | progress cbv zeta
+    | progress autounfold with gen_new
     | progress unfold Date_ordinal, Date_year, Date_month, Date_day
     | match goal with
       | H : Calendar_at_jdn _ _ = Ret _ |- _ => rewrite H
